@@ -115,11 +115,21 @@ def run(ctx):
                        "the configuration written before sampling does not include the sampler configuration", disc="sampler")
     # the sampler named in the config is the one about to run
     assigns = [n for n in walk_no_nested(sp.node) if isinstance(n, ast.Assign) and isinstance(n.targets[0], ast.Attribute) and n.targets[0].attr == "_last_sampler_type"]
-    ok = bool(assigns) and assigns[0].lineno < W.lineno and isinstance(assigns[0].value, ast.Name) and assigns[0].value.id == "sampler"
+    # value-based: what is recorded is the sampler that was actually built (after a primed resume substituted the recorded one)
+    evt = Evaluator(repo, max_depth=0)
+    evt.run(sp, A)
+    built = [e for e in evt.events if e.func is sp and e.callee.endswith("Aspire.init_sampler")]
+    recorded = [st_ for st_ in evt.stores if st_[0] == T.atom(sp.params[0]) and st_[1] == "_last_sampler_type"]
+    same = len(built) == 1 and len(recorded) == 1 and built[0].args and recorded[0][2] == built[0].args[0]
+    ok = bool(assigns) and assigns[0].lineno < W.lineno and same
     ctx.decide(ok, "C14.config", sp.ident, loc_of(sp, assigns[0] if assigns else W), "sampler_type is updated to the requested sampler before the configuration is written",
-               "the configuration is written before sampler_type is updated: it names the sampler of the previous run", disc="type")
+               "the sampler type recorded for the configuration is not (yet) the sampler that was built for this run when the configuration is written: "
+               "the file names another sampler than the one whose checkpoint it holds", disc="type")
     from ..report import reuse
     from . import c19
+    from . import c11
+    reuse(ctx, c11.run, ("C11.prime",), "C14res", "resume-route rule shared with C11: the population a resumed instance continues from is the checkpoint read in the same pass as the flow it loaded, "
+          "and it is forwarded exactly when the caller gave none")
     reuse(ctx, c19.run, ("C19.ac",), "C14ctx", "context rule shared with C19: checkpoint defaults left behind after the with-block make later calls write to the old file")
     cd = A.methods["config_dict"]
     reads = any(isinstance(n, ast.Attribute) and n.attr == "_last_sampler_type" for n in ast.walk(cd.node))
@@ -151,6 +161,8 @@ def run(ctx):
 
 _A = "src/aspire/aspire.py"
 MUTANTS = [
+    M("requested name recorded instead of the sampler built", _A, "self._last_sampler_type = sampler\n", "self._last_sampler_type = requested\n", "C14.config",
+      more=[("if (\n            sampler == \"importance\"\n            and hasattr(self, \"_resume_sampler_type\")", "requested = sampler\n        if (\n            sampler == \"importance\"\n            and hasattr(self, \"_resume_sampler_type\")")]),
     M("sampler type only reported before any run", _A, "if hasattr(self, \"_last_sampler_type\"):\n            config[\"sampler_type\"] = self._last_sampler_type", "if not hasattr(self, \"_last_sampler_type\"):\n            config[\"sampler_type\"] = self._last_sampler_type", "C14.config"),
     M("sampler configuration of nobody", _A, "config[\"sampler_config\"] = self.sampler.config_dict(**kwargs)", "config[\"sampler_config\"] = {}", "C14.config"),
     M("flow kept when the file already has one", _A, "if self.flow is not None:\n                    # Always store the flow the sampler is about to use: a\n                    # flow already in the file may come from an earlier fit\n                    if \"flow\" in h5_file:\n                        del h5_file[\"flow\"]\n                    self.save_flow(h5_file)",
